@@ -371,4 +371,68 @@ def observe (legacy : Bool) (sha : Content → Sum) (k : Nat) : RState → List 
     (r, (List.range k).map s'.ent) :: observe legacy sha k s' rest
   | s, .pre p :: rest => observe legacy sha k (applyPre sha s p) rest
 
+/-! ## An invocation whose last cache write fails
+
+The real binary can be made to fail exactly between the cache writes without being killed: under a
+file-size limit (`ulimit -f 1`: 512 bytes) `WriteChecksum`, `WriteTimestamp` and
+`WriteResolvedLocation` succeed and `Write` — the Taskfile is longer — fails with "file too large"
+(as with a full disk), leaving the first 512 bytes in `<key>.yaml`; the load ends with that error
+(exit code 1), nothing runs.  In the model's terms such an invocation *is* `Pre.crash st 3` followed
+by `Pre.damage u (some garbage)` whenever it gets as far as the writes (`limitedPre`), and an
+ordinary invocation otherwise (nothing else it writes is that long). -/
+
+/-- the content number that stands for "not a Taskfile the harness ever serves" (a truncated file) -/
+def garbage : Content := 0
+
+/-- the events a size-limited invocation amounts to, if it gets to the cache writes -/
+def limitedPre (sha : Content → Sum) (s : RState) (st : Step) : Option (List Pre) :=
+  match gate st with
+  | some _ => none
+  | none =>
+    match writes sha (s.now + st.dt) (s.ent st.url.id) st.flags (net st.flags st.server) st.answer with
+    | some _ => some [.crash st 3, .damage st.url.id (some garbage)]
+    | none => none
+
+inductive LEv
+  | ev (e : Ev)
+  | limited (st : Step)
+deriving Repr, DecidableEq
+
+/-- the history of invocations, crashes and damage that a history with size-limited invocations amounts to -/
+def expandL (legacy : Bool) (sha : Content → Sum) : RState → List LEv → List Ev
+  | _, [] => []
+  | s, .ev (.step st) :: rest => .step st :: expandL legacy sha (invokeWith legacy sha s st).2 rest
+  | s, .ev (.pre p) :: rest => .pre p :: expandL legacy sha (applyPre sha s p) rest
+  | s, .limited st :: rest =>
+    match limitedPre sha s st with
+    | some ps => ps.map .pre ++ expandL legacy sha (ps.foldl (applyPre sha) s) rest
+    | none => .step st :: expandL legacy sha (invokeWith legacy sha s st).2 rest
+
+/-- per-step observation used by the driver; a size-limited invocation that gets to the writes ends
+with exit code 1 and has run nothing -/
+def observeL (legacy : Bool) (sha : Content → Sum) (k : Nat) : RState → List LEv → List (RResult × List Entry)
+  | _, [] => []
+  | s, .ev (.step st) :: rest =>
+    let (r, s') := invokeWith legacy sha s st
+    (r, (List.range k).map s'.ent) :: observeL legacy sha k s' rest
+  | s, .ev (.pre p) :: rest => observeL legacy sha k (applyPre sha s p) rest
+  | s, .limited st :: rest =>
+    match limitedPre sha s st with
+    | some ps =>
+      let s' := ps.foldl (applyPre sha) s
+      (.error 1, (List.range k).map s'.ent) :: observeL legacy sha k s' rest
+    | none =>
+      let (r, s') := invokeWith legacy sha s st
+      (r, (List.range k).map s'.ent) :: observeL legacy sha k s' rest
+
+/-- the state a history with size-limited invocations ends in -/
+def stateL (legacy : Bool) (sha : Content → Sum) : RState → List LEv → RState
+  | s, [] => s
+  | s, .ev (.step st) :: rest => stateL legacy sha (invokeWith legacy sha s st).2 rest
+  | s, .ev (.pre p) :: rest => stateL legacy sha (applyPre sha s p) rest
+  | s, .limited st :: rest =>
+    match limitedPre sha s st with
+    | some ps => stateL legacy sha (ps.foldl (applyPre sha) s) rest
+    | none => stateL legacy sha (invokeWith legacy sha s st).2 rest
+
 end TaskModel.Remote
